@@ -233,7 +233,7 @@ class _BadiYearMonthDayCalculator(_YearMonthDayCalculator):
         return _YearMonthDay._ctor(year=new_year, month=month, day=day)
 
     def _validate_year_month_day(self, year: int, month: int, day: int) -> None:
-        _Preconditions._check_argument_range("year", year, self.__BADI_MIN_YEAR, self.__BADI_MAX_YEAR)
+        _Preconditions._check_argument_range("year", year, self._min_year, self._max_year)
         _Preconditions._check_argument_range("month", month, 1, self.__MONTHS_IN_YEAR)
 
         days_in_month = (
